@@ -51,7 +51,8 @@ def to_gen_format(gen, m):
 
 
 def go_build(d, what="./..."):
-    p = subprocess.run(["go", "build", what], cwd=d, env=lib.GOENV, stdout=subprocess.PIPE, stderr=subprocess.STDOUT, text=True, errors="replace")
+    # -e: every compile error, not just the first ten of a package (a root cause must not hide another behind "too many errors")
+    p = subprocess.run(["go", "build", "-gcflags=-e", what], cwd=d, env=lib.GOENV, stdout=subprocess.PIPE, stderr=subprocess.STDOUT, text=True, errors="replace")
     lib.no_space(p.stdout)
     return p.returncode, p.stdout
 
@@ -455,8 +456,9 @@ def report_compile(verdict, gen, what, out, m, tag):
     for f, msgs in sorted(by_file.items()):
         # one root cause has a key of its own: an identifier of the generated method (e.g. the parameter `other` of Equals)
         # shadows the imported package of the same name, so `pkg.Type` inside that method is "not a type"
-        shadowed = set(mm.group(1) for mm in (re.match(r"(\w+)\.\w+ is not a type$", x) for x in msgs) if mm)
-        if shadowed and shadowed <= pkgs and all(re.match(r"(\w+)\.\w+ is not a type$", x) for x in msgs):
+        real = [x for x in msgs if x != "too many errors"]
+        shadowed = set(mm.group(1) for mm in (re.match(r"(\w+)\.\w+ is not a type$", x) for x in real) if mm)
+        if shadowed and shadowed <= pkgs and all(re.match(r"(\w+)\.\w+ is not a type$", x) for x in real):
             for pk in sorted(shadowed):
                 verdict.add("C12/%s/%s/package-name-shadowed/%s" % (gen, what, pk),
                             "%s: a type of package %s is referred to inside a generated method that has a local identifier of the same name: %s" % (f, pk, " ; ".join(msgs[:2])),
